@@ -11,6 +11,7 @@
 package interp
 
 import (
+	"errors"
 	"fmt"
 	"io"
 	"strings"
@@ -98,7 +99,7 @@ func (l *lexer) run() {
 	defer func() {
 		close(l.token)
 
-		if e := recover(); e != nil {
+		if e := recover(); e != nil && e != bailout {
 			// re-panic
 			panic(e)
 		}
@@ -352,7 +353,7 @@ func (l *lexer) emit(typ int) {
 	case l.token <- tok:
 	case <-l.cancel:
 		// bailout
-		panic(nil)
+		panic(bailout)
 	}
 }
 
@@ -386,6 +387,9 @@ func (l *lexer) Error(s string) {
 		close(l.cancel)
 	}
 }
+
+// bailout is the panic value used to terminate the lexer goroutine.
+var bailout = errors.New("bailout")
 
 type action func() action
 
